@@ -211,6 +211,8 @@ class _APEv2Data(object):
             start = self.header
         else:
             start = self.data
+        if start < 0:
+            raise APEBadItemError("tag size larger than the file")
         fileobj.seek(start)
 
         while start > 0:
